@@ -1,11 +1,13 @@
 """C28 — loaders never read outside their search locations; choice/prefix
 loaders resolve to the first loader that has the name.  Audit-hook monitor over
 an exhaustively enumerated name space + model comparison over random loader
-compositions."""
+compositions, static and dynamic (leaves gain/lose names between lookups on the
+same composed loader instance)."""
 from __future__ import annotations
 
 import importlib
 import itertools
+import json
 import os
 import pathlib
 import shutil
@@ -25,8 +27,17 @@ RULE = ("names: every sequence of 1..4 (thorough: 1..5) segments over {'..','.',
         "directories hold a 3-level tree built from the same fragments and every enclosing directory "
         "holds equally named sentinel files. compositions: random ChoiceLoader/PrefixLoader/DictLoader "
         "(and FileSystemLoader leaves) trees of depth<=3, all names of <=2 and a fifth of those of 3 segments over 6 fragments (+ ':' / '.' delimiter variants), "
-        "get_source and get_template compared with a 10-line resolution model. distinct = distinct "
-        "(name, loader configuration) pairs (names of <=4 segments) + distinct compositions")
+        "get_source and get_template compared with a 10-line resolution model. dynamic compositions: "
+        "per shard 40 (thorough 1200) random ChoiceLoader/PrefixLoader trees of depth<=3 over DictLoader "
+        "leaves (the harness keeps the mapping) and FileSystemLoader leaves on private directories; a "
+        "history of 6..12 steps, each adding, deleting or re-texting one name in one leaf (names chosen "
+        "so that sibling leaves compete for the same full name); at the start and after EVERY step every "
+        "probe name (each leaf's route x {'t','u/t','x.html'}) is looked up on the SAME loader instance "
+        "via loader.get_source, Environment(cache_size=0).get_template and (for the touched name) a "
+        "fresh default Environment, and compared with the same resolution model evaluated on what the "
+        "leaves hold at that moment. distinct = distinct "
+        "(name, loader configuration) pairs (names of <=4 segments) + distinct compositions + distinct "
+        "dynamic histories")
 LEVEL_TEXT = ("held for every enumerated name on every loader configuration (POSIX path rules only) and on "
               "every generated composition; says nothing about symlinks inside the search path, zip "
               "packages or Windows separators")
@@ -36,6 +47,11 @@ ASSUMPTIONS = [
     "containment is lexical (normpath); no symlinks are planted inside the search directories",
     "PackageLoader is exercised for a regular directory package only (no zip, no namespace package)",
     "opens made by the import machinery (importlib frames on the stack) are not attributed to loaders",
+    "dynamic compositions: only leaf contents change (a DictLoader sees later changes of the mapping it was "
+    "given; a FileSystemLoader sees files appear/disappear); the loader lists / prefix mappings of "
+    "ChoiceLoader / PrefixLoader themselves are not mutated; lookups go through cache_size=0 or fresh "
+    "environments, because a caching environment may legitimately keep serving a still up-to-date "
+    "template of a later loader (that is C25's subject)",
 ]
 NSHARDS = {"quick": 16, "thorough": 16}
 BUDGET_S = {"quick": 90, "thorough": 900}
@@ -45,13 +61,20 @@ FLOORS = {
                            "get_source_found": 14000, "rejected_parent_reference": 34000,
                            "get_template_calls": 11000, "compositions": 240,
                            "compose_lookups": 55000, "compose_found": 7000,
-                           "compose_notfound": 48000}},
+                           "compose_notfound": 48000, "dyn_compositions": 160,
+                           "dyn_steps": 1400, "dyn_lookups": 17000, "dyn_found": 12000,
+                           "dyn_moved_to_other_loader": 240, "dyn_name_appeared": 390,
+                           "dyn_name_vanished": 200, "dyn_steps_on_filesystem_leaf": 360}},
     "thorough": {"evaluations": 2800000, "distinct": 110000,
                  "counters": {"names": 270000, "open_events": 88000, "opens_inside": 88000,
                               "get_source_found": 58000, "rejected_parent_reference": 490000,
                               "get_template_calls": 87000, "compositions": 6000,
                               "compose_lookups": 1390000, "compose_found": 178000,
-                              "compose_notfound": 1200000, "pairs_5_segments": 1200000}},
+                              "compose_notfound": 1200000, "pairs_5_segments": 1200000,
+                              "dyn_compositions": 4800, "dyn_steps": 42000, "dyn_lookups": 500000,
+                              "dyn_found": 360000, "dyn_moved_to_other_loader": 7000,
+                              "dyn_name_appeared": 11000, "dyn_name_vanished": 6000,
+                              "dyn_steps_on_filesystem_leaf": 10000}},
 }
 
 FRAGS = ["..", ".", "", "a", "b.txt", "a\\b", "C:", "\\\\x", "é", "..a", "a..", " "]
@@ -394,6 +417,8 @@ def resolve(spec, name, sb):
     k = spec[0]
     if k == "dict":
         return spec[1].get(name)
+    if k == "fsdyn":
+        return None if ".." in name.split("/") else spec[1].get(name)
     if k == "fs":
         pieces = name.split("/")
         if ".." in pieces:
@@ -498,6 +523,259 @@ def part_compose(ctx, sb, quick):
             break
 
 
+# ------------------------------------------------- dynamic compositions
+# The same composed loader INSTANCE is asked again and again while its leaves
+# gain, lose and change templates: "the first loader that has it" must be
+# decided from what the loaders hold at the time of the lookup.
+DYN_INNER = ["t", "u/t", "x.html"]
+DYN_PREFIXES = ["a", "b", "p", "q"]
+
+
+def gen_dyn_spec(rng, depth, top=False):
+    if depth <= 1:
+        kinds = ["dict", "dict", "dict", "fsdyn"]
+    elif top:
+        kinds = ["choice", "choice", "choice", "prefix", "prefix"]
+    else:
+        kinds = ["dict", "dict", "dict", "fsdyn", "choice", "choice", "prefix"]
+    kind = rng.choice(kinds)
+    if kind in ("dict", "fsdyn"):
+        return [kind, {}]
+    if kind == "choice":
+        return ["choice", [gen_dyn_spec(rng, depth - 1) for _ in range(rng.randint(2, 3))]]
+    prefixes = sorted(rng.sample(DYN_PREFIXES, rng.randint(1, 2)))
+    delim = rng.choice(["/", "/", "/", ":", "."])
+    return ["prefix", {p: gen_dyn_spec(rng, depth - 1) for p in prefixes}, delim]
+
+
+def dyn_nodes(spec, route="", out=None):
+    """[(sub-spec, route)] in depth-first order; route = what a name must start
+    with to be handed to that node (prefixes and delimiters on the way down)."""
+    if out is None:
+        out = []
+    out.append((spec, route))
+    if spec[0] == "choice":
+        for c in spec[1]:
+            dyn_nodes(c, route, out)
+    elif spec[0] == "prefix":
+        for pfx in sorted(spec[1]):
+            dyn_nodes(spec[1][pfx], route + pfx + spec[2], out)
+    return out
+
+
+def fs_conflict(name, existing):
+    return any(e != name and (e.startswith(name + "/") or name.startswith(e + "/")) for e in existing)
+
+
+def gen_dynamic(rng, steps):
+    """(initial spec, ops, probe names).  ops: ['set', leaf index, local name, text]
+    | ['del', leaf index, local name]; every op really changes what the leaf holds."""
+    spec = gen_dyn_spec(rng, 3, top=True)
+    leaves = [(s, r) for s, r in dyn_nodes(spec) if s[0] in ("dict", "fsdyn")]
+    probes = sorted({r + i for _, r in leaves for i in DYN_INNER})
+    cands = [sorted({p[len(r):] for p in probes if p.startswith(r) and len(p) > len(r)})
+             for _, r in leaves]
+    for li, (leaf, _) in enumerate(leaves):
+        for c in cands[li]:
+            if rng.random() < 0.3 and not (leaf[0] == "fsdyn" and fs_conflict(c, leaf[1])):
+                leaf[1][c] = f"L{li}:{c}#init"
+    initial = json.loads(json.dumps(spec))
+    ops = []
+    for step in range(steps):
+        for _ in range(8):
+            li = rng.randrange(len(leaves))
+            leaf = leaves[li][0]
+            if not cands[li]:
+                continue
+            local = rng.choice(cands[li])
+            if local in leaf[1]:
+                if rng.random() < 0.6:
+                    del leaf[1][local]
+                    ops.append(["del", li, local])
+                else:
+                    leaf[1][local] = f"L{li}:{local}#{step}"
+                    ops.append(["set", li, local, leaf[1][local]])
+                break
+            if leaf[0] == "fsdyn" and fs_conflict(local, leaf[1]):
+                continue
+            leaf[1][local] = f"L{li}:{local}#{step}"
+            ops.append(["set", li, local, leaf[1][local]])
+            break
+    return initial, ops, probes
+
+
+class DynBuild:
+    """Builds the loader tree of a dynamic spec; dict leaves keep the mapping the
+    DictLoader was given, fsdyn leaves a private directory."""
+
+    def __init__(self, spec, sb):
+        from jinja2 import ChoiceLoader, DictLoader, FileSystemLoader, PrefixLoader
+
+        self.dir = tempfile.mkdtemp(prefix="dyn_", dir=sb.root)
+        self.loader_of = {}      # id(sub-spec) -> loader
+        self.handles = []        # per leaf (depth-first): mapping | directory
+        nfs = [0]
+
+        def mk(s):
+            if s[0] == "dict":
+                mp = dict(s[1])
+                ld = DictLoader(mp)
+                self.handles.append(mp)
+            elif s[0] == "fsdyn":
+                d = os.path.join(self.dir, f"leaf{nfs[0]}")
+                nfs[0] += 1
+                os.mkdir(d)
+                for n, txt in s[1].items():
+                    self.write(d, n, txt)
+                ld = FileSystemLoader(d)
+                self.handles.append(d)
+            elif s[0] == "choice":
+                ld = ChoiceLoader([mk(c) for c in s[1]])
+            else:
+                mp = {p: mk(s[1][p]) for p in sorted(s[1])}
+                ld = PrefixLoader(mp, delimiter=s[2]) if s[2] != "/" else PrefixLoader(mp)
+            self.loader_of[id(s)] = ld
+            return ld
+
+        self.root = mk(spec)
+
+    @staticmethod
+    def write(d, name, txt):
+        p = os.path.join(d, *name.split("/"))
+        os.makedirs(os.path.dirname(p), exist_ok=True)
+        with open(p, "w", encoding="utf-8") as f:
+            f.write(txt)
+
+    def apply(self, leaf_index, op):
+        h = self.handles[leaf_index]
+        if isinstance(h, dict):
+            if op[0] == "del":
+                del h[op[2]]
+            else:
+                h[op[2]] = op[3]
+        elif op[0] == "del":
+            os.remove(os.path.join(h, *op[2].split("/")))
+        else:
+            self.write(h, op[2], op[3])
+
+    def close(self):
+        shutil.rmtree(self.dir, ignore_errors=True)
+
+
+def run_dynamic(ctx, sb, spec0, ops, probes, case):
+    """Returns True if the whole history agreed with the resolution model."""
+    from jinja2 import Environment
+
+    spec = json.loads(json.dumps(spec0))        # the model's own copy, mutated along
+    nodes = dyn_nodes(spec)
+    leaves = [(s, r) for s, r in nodes if s[0] in ("dict", "fsdyn")]
+    b = DynBuild(spec, sb)
+    try:
+        env = Environment(loader=b.root, cache_size=0)
+        ctx.count("dyn_compositions")
+        prev = {}
+
+        def who_disagrees(name, api):
+            # innermost node whose own answer (same API) differs from the model's
+            for s, r in reversed(nodes):
+                if not name.startswith(r):
+                    continue
+                local = name[len(r):]
+                sub = b.loader_of[id(s)]
+                if api == "get_source":
+                    got, exc = lookup(sub, env, local, api)
+                else:
+                    got, exc = lookup(sub, Environment(loader=sub, cache_size=0), local,
+                                      "get_template")
+                if exc is not None or got != resolve(s, local, sb):
+                    return s[0]
+            return spec[0]
+
+        def check_all(after, affected):
+            for name in probes:
+                want = resolve(spec, name, sb)
+                was = prev.get(name, want)
+                if was != want:
+                    if was is None:
+                        ctx.count("dyn_name_appeared")
+                    elif want is None:
+                        ctx.count("dyn_name_vanished")
+                    elif after != "change" or name != affected:
+                        ctx.count("dyn_moved_to_other_loader")
+                    else:
+                        ctx.count("dyn_text_changed")
+                prev[name] = want
+                apis = ["get_source", "get_template"]
+                if name == affected or after == "init":
+                    apis.append("fresh_env_get_template")
+                for api in apis:
+                    if api == "fresh_env_get_template":
+                        got, exc = lookup(b.root, Environment(loader=b.root), name, "get_template")
+                    else:
+                        got, exc = lookup(b.root, env, name, api)
+                    ctx.ev()
+                    ctx.count("dyn_lookups")
+                    if want is not None:
+                        ctx.count("dyn_found")
+                    if exc is None and got == want:
+                        continue
+                    if exc is not None:
+                        what = f"raises:{type(exc).__name__}"
+                    elif want is None:
+                        what = "found-though-no-loader-has-it"
+                    elif got is None:
+                        what = "not-found-though-a-loader-has-it"
+                    else:
+                        what = "not-the-first-loader-that-has-it"
+                    ctx.violation(
+                        f"compose-dynamic:{who_disagrees(name, api)}:{api}:{what}:after-{after}",
+                        f"{api}({name!r}) on the same loader instance after {after} gave {got!r} "
+                        f"({exc!r}); the first loader that has the name NOW gives {want!r}; "
+                        f"loaders now hold {spec}", case)
+                    return False
+            return True
+
+        if not check_all("init", None):
+            return False
+        for i, op in enumerate(ops):
+            leaf, route = leaves[op[1]]
+            if op[0] == "del":
+                after = "delete"
+                del leaf[1][op[2]]
+            else:
+                after = "change" if op[2] in leaf[1] else "add"
+                leaf[1][op[2]] = op[3]
+            b.apply(op[1], op)
+            ctx.count("dyn_steps")
+            ctx.count("dyn_step_" + after)
+            if leaf[0] == "fsdyn":
+                ctx.count("dyn_steps_on_filesystem_leaf")
+            if not check_all(after, route + op[2]):
+                return False
+        return True
+    finally:
+        b.close()
+
+
+def part_dynamic(ctx, sb, quick):
+    import random
+
+    rng = ctx.rng("dynamic")
+    n = 40 if quick else 1200
+    for i in range(n):
+        seed = rng.getrandbits(48)
+        r = random.Random(seed)
+        spec, ops, probes = gen_dynamic(r, r.randint(6, 12))
+        case = {"part": "dynamic", "seed": seed, "spec": spec, "ops": ops, "probes": probes}
+        if i < 2 and ctx.shard == 0:
+            ctx.sample(case)
+        if run_dynamic(ctx, sb, spec, ops, probes, case):
+            ctx.dist(("dynamic", seed))
+        if ctx.out_of_time() and i >= 10:
+            ctx.count("dynamic_timeboxed")
+            break
+
+
 # ------------------------------------------------------------------ driver
 class Session:
     def __init__(self, tag):
@@ -521,6 +799,7 @@ def run(ctx):
     quick = ctx.tier == "quick"
     ses = Session(f"s{ctx.shard}")
     try:
+        part_dynamic(ctx, ses.sb, quick)
         part_names(ctx, ses.sb, quick)
         part_compose(ctx, ses.sb, quick)
     finally:
@@ -539,6 +818,8 @@ def replay(ctx, case):
                 if label == case["loader"]:
                     check_name(ctx, sb, mon, Environment(loader=loader, cache_size=0), label, loader,
                                roots, case["name"].replace("$ROOT", sb.root), True)
+        elif case["part"] == "dynamic":
+            run_dynamic(ctx, sb, case["spec"], case["ops"], case["probes"], case)
         else:
             names = pool_names()
             check_composition(ctx, sb, case["spec"], names, case)
